@@ -2,6 +2,7 @@ package main
 
 import (
 	"flag"
+	"strings"
 
 	"github.com/libsv/go-bt/v2/bscript"
 )
@@ -58,6 +59,10 @@ func c17(args []string) error {
 		tr.emit(e)
 	}
 	val := func(src string, text string) {
+		// ValidateAddress treats only "bitcoin-script:" strings as BIP276 (anything else is a Base58 address)
+		if !strings.HasPrefix(text, bscript.PrefixScript+":") {
+			return
+		}
 		var ok bool
 		p, msg := guard(func() { ok, _ = bscript.ValidateAddress(text) })
 		e := Ev{"ev": "val", "src": src, "text": ints([]byte(text)), "ok": ok}
@@ -144,11 +149,26 @@ func c17(args []string) error {
 	// single-character corruptions at every position
 	alphabet := []byte("0123456789abcdefABCDEFg:z +-.xX_,")
 	rng.Shuffle(len(valid), func(i, j int) { valid[i], valid[j] = valid[j], valid[i] })
+	// every second base text is one the decoder accepts, whatever field layout it implements
+	// (version == network in 1..9): a corruption of such a text can only be rejected for its own sake
+	var easy []string
+	for v := 1; v <= 9; v++ {
+		data := make([]byte, 1+rng.Intn(30))
+		rng.Read(data)
+		easy = append(easy, enc("enum-eq", []string{bscript.PrefixScript, bscript.PrefixTemplate}[v%2], v, v, data))
+	}
+	rng.Shuffle(len(easy), func(i, j int) { easy[i], easy[j] = easy[j], easy[i] })
+	for i := 0; i < len(valid) && i/2 < len(easy); i += 2 {
+		valid[i] = easy[i/2]
+	}
 	for i := 0; i < len(valid) && i < *nCorrupt; i++ {
 		t := []byte(valid[i])
 		for pos := range t {
 			if i < 3 {
 				for _, c := range []byte("+- .x") {
+					if c == t[pos] {
+						continue
+					}
 					m := append([]byte{}, t...)
 					m[pos] = c
 					dec("corrupt", string(m))
@@ -166,6 +186,20 @@ func c17(args []string) error {
 				if k == 0 {
 					val("corrupt", string(m))
 				}
+			}
+		}
+		// one character inserted before / deleted at every position (length parity changes)
+		for pos := 0; pos <= len(t); pos++ {
+			for _, c := range []byte{'0', 'a', alphabet[rng.Intn(len(alphabet))]} {
+				m := append(append(append([]byte{}, t[:pos]...), c), t[pos:]...)
+				dec("corrupt-ins", string(m))
+				if c == '0' {
+					val("corrupt-ins", string(m))
+				}
+			}
+			if pos < len(t) {
+				m := append(append([]byte{}, t[:pos]...), t[pos+1:]...)
+				dec("corrupt-del", string(m))
 			}
 		}
 		// truncation / extension
